@@ -213,6 +213,16 @@ fn synth_cases<W: Write>(prop: &str, opts: &Opts, out: &mut W, rng: &mut Rng) {
             emit_vp8l(out, prop, &format!("synth-long-{i}-valid"), &p);
         }
     }
+    // invalid streams whose explicit max_symbol only looks small after a 16-bit wrap
+    for which in 0..5usize {
+        for field in [0xffffu32, 0xfffe, 0xfffd, 0x8000, 0x7fff] {
+            let id = which as u64 * 8 + field as u64 % 8;
+            if !opts.mine(id) {
+                continue;
+            }
+            emit_vp8l(out, prop, &format!("synth-wrap-{which}-{field:x}-max-symbol-gt-alphabet"), &synth::hidden_max_symbol(which, field));
+        }
+    }
     // invalid streams whose violation hides behind a sub-image that a reader with a wrong idea of its size swallows whole
     let mut hi = 0u64;
     for &(w, h) in &[(16u32, 1u32), (17, 3), (33, 9), (64, 64), (100, 40), (257, 5)] {
